@@ -1,5 +1,6 @@
 # SPDX-License-Identifier: MIT
 import abc
+import copyreg
 import typing
 from copy import deepcopy
 from keyword import iskeyword
@@ -188,20 +189,29 @@ class ItemAttributeList(List[T]):
         result = cls.__new__(cls)
         memo[id(self)] = result
         result._item_dict = {}
-        for x in self:
-            result.append(deepcopy(x, memo))
+
+        # the items are not inspected here because they may refer
+        # back to this list, i.e., their copies are possibly still
+        # under construction
+        list.extend(result, [deepcopy(x, memo) for x in self])
+        result._item_dict = {name: deepcopy(x, memo) for name, x in self._item_dict.items()}
 
         return result
 
     def __reduce__(self) -> Tuple[Any, ...]:
         """Support for Python's pickle protocol.
-        This method ensures that the object can be reconstructed with its current state,
-        using its class and the list of items it contains.
-        It returns a tuple containing the reconstruction function (the class)
-        and its arguments necessary to recreate the object.
 
+        The items and their names are stored as they are and restored
+        by `__setstate__()` without inspecting the items: Items may
+        refer back to the list which contains them, i.e., they are
+        possibly still under construction when the list is restored.
         """
-        return self.__class__, (list(self),)
+        state = {"items": list(self), "names": dict(self._item_dict)}
+        return copyreg.__newobj__, (self.__class__,), state
+
+    def __setstate__(self, state: Dict[str, Any]) -> None:
+        self._item_dict = state["names"]
+        list.extend(self, state["items"])
 
 
 class NamedItemList(ItemAttributeList[T]):
